@@ -4,6 +4,7 @@ import (
 	"context"
 	"errors"
 	"fmt"
+	"regexp"
 	"runtime"
 	"strings"
 	"time"
@@ -84,7 +85,7 @@ func NewMaprClient(args config.Args, maprClientMode MaprClientMode) (*MaprClient
 	case "*":
 		c.RegexStr = "\\|MAPREDUCE:\\|"
 	default:
-		c.RegexStr = fmt.Sprintf("\\|MAPREDUCE:%s\\|", c.query.Table)
+		c.RegexStr = fmt.Sprintf("\\|MAPREDUCE:%s\\|", regexp.QuoteMeta(c.query.Table))
 	}
 
 	c.globalGroup = mapr.NewGlobalGroupSet()
